@@ -84,6 +84,7 @@ type task struct {
 	rdv       int32 // woken for a rendezvous on an unbuffered channel (runs one statement without the token)
 	selCase   int32 // ... out of Select: the case it was matched on
 	rfd, wfd  int   // pipe hand-over
+	fromCode  bool  // started by a go statement of the code under test
 }
 
 var (
@@ -337,10 +338,25 @@ func taskPanicked(id int, r interface{}) {
 	default:
 		if PanicHandler != nil {
 			PanicHandler(id, r)
+		} else if tasks[id].fromCode {
+			CodePanics++
+			if CodePanicText == "" {
+				CodePanicText = panicString(r)
+			}
 		} else {
 			TaskPanics++
 		}
 	}
+}
+
+func panicString(r interface{}) string {
+	switch x := r.(type) {
+	case error:
+		return x.Error()
+	case string:
+		return x
+	}
+	return "panic with a value of a non-string, non-error type"
 }
 
 // Go is what instrumented `go f()` statements call.
@@ -355,8 +371,17 @@ func Go(f func()) {
 	inheritLimit(id)
 }
 
+// CodePanics counts panics that escaped goroutines started by the code under
+// test itself (in a real process each of them ends the whole program);
+// CodePanicText describes the first.
+var (
+	CodePanics    int64
+	CodePanicText string
+)
+
 //go:norace
 func inheritLimit(id int) {
+	tasks[id].fromCode = true
 	if lim := tasks[cur].opLimit; lim < tasks[id].opLimit {
 		tasks[id].opLimit = lim
 	}
